@@ -162,8 +162,8 @@ func (nd *vC13Node) closeAll() {
 }
 
 func TestVerif_C13_modes(t *testing.T) {
-	vh.Run(t, vh.Spec{Prop: "C13", Unit: "modes", Quick: 400, Thorough: 12000, CostMs: 15,
-		Rule: "PRNG Mode option (auto, client, server, autoserver) x sequence of 1-8 EvtLocalReachabilityChanged events (public/private/unknown) emitted on the host's event bus, synctest.Wait() between steps; before each event requests on 0-2 new and on already-open inbound streams (server: answered; client: the host has no handler and a stream dispatched to the DHT handler anyway is reset unanswered); at each event optionally a request racing with it (written just before / just after the emit, on an open or a new stream, no Wait in between); after each event at rest: handler registered <=> mode(last event, option), every inbound stream open at a switch to client has been reset and its handler returned, streams open across a non-switch still serve; non-trivial = at least one real mode switch with open streams or a raced request; distinct by (option, event sequence, race outcomes)",
+	vh.Run(t, vh.Spec{Prop: "C13", Unit: "modes", Quick: 1500, Thorough: 50000, CostMs: 4,
+		Rule: "PRNG Mode option (auto, client, server, autoserver) x sequence of 1-8 EvtLocalReachabilityChanged events (public/private/unknown) emitted on the host's event bus, synctest.Wait() between steps; before each event requests on 0-2 new and on already-open inbound streams (server: answered; client: the host has no handler and a stream dispatched to the DHT handler anyway is reset unanswered); at each event optionally a request racing with it (written just before / just after the emit, on an open stream, on a new stream, or on a stream whose protocol negotiation overlaps the event; no Wait in between); after each event at rest: handler registered <=> mode(last event, option), every inbound stream open at a switch to client has been reset and its handler returned, streams open across a non-switch still serve; non-trivial = at least one real mode switch with open streams or a raced request; distinct by (option, event sequence, race outcomes)",
 		Clauses: []string{"handlers-iff-mode-of-last-event", "server-mode-answers", "client-mode-answers-nothing", "open-streams-reset-on-switch-to-client", "raced-request-answered-or-reset", "fixed-mode-never-changes", "client-mode-stream-handler-returns"}},
 		func(c *vh.Case) {
 			c.Bubble(t, time.Hour, "mode-switch-hang", func(t *testing.T) {
@@ -202,7 +202,10 @@ func TestVerif_C13_modes(t *testing.T) {
 							nd.serveCheck(nd.open[r.Intn(len(nd.open))], what+" open stream")
 						}
 					} else {
-						c.Check(vInOpen(n, nd.peer(), nil) == nil, "handlers-iff-mode-of-last-event", "%s: client mode but the host has a handler registered", what)
+						if st := vInOpen(n, nd.peer(), nil); !c.Check(st == nil, "handlers-iff-mode-of-last-event", "%s: client mode but the host has a handler registered", what) {
+							st.E.Reset()
+							synctest.Wait()
+						}
 						if r.Intn(2) == 0 {
 							nd.refuseCheck(what + " before event")
 						}
@@ -220,7 +223,7 @@ func TestVerif_C13_modes(t *testing.T) {
 					var raced *vInStream
 					var racedReq *pb.Message
 					racedOnOpen := false
-					switch race := r.Intn(6); race {
+					switch race := r.Intn(7); race {
 					case 0, 1: // request on an already-open stream, written just before / after the emit
 						if len(nd.open) > 0 {
 							raced, racedOnOpen = nd.open[r.Intn(len(nd.open))], true
@@ -250,6 +253,20 @@ func TestVerif_C13_modes(t *testing.T) {
 							raced.E.WriteMsg(racedReq)
 						}
 						if race == 2 {
+							emit()
+						}
+					case 4: // a stream whose protocol negotiation overlaps the event: accepted and handler looked up before, dispatched after
+						if h := n.H.Handler(proto); h != nil {
+							var dispatch func()
+							raced, dispatch = vInOpenLate(n, nd.peer(), h)
+							racedReq = nd.request()
+							raced.E.WriteMsg(racedReq)
+							emit()
+							if r.Intn(2) == 0 {
+								synctest.Wait() // the switch (if any) is complete before the host dispatches
+							}
+							dispatch()
+						} else {
 							emit()
 						}
 					default:
@@ -365,7 +382,7 @@ func vC13Barrier(n *vNet, tag *atomic.Int64) {
 }
 
 func TestVerifRace_C13_race(t *testing.T) {
-	vh.Run(t, vh.Spec{Prop: "C13", Unit: "race", Quick: 8, Thorough: 300, CostMs: 700, WallS: 240,
+	vh.Run(t, vh.Spec{Prop: "C13", Unit: "race", Quick: 12, Thorough: 400, CostMs: 600, WallS: 240,
 		Rule: "real time, no bubble, -race build: Mode(auto|autoserver), ~300 PRNG reachability events emitted by one goroutine while four goroutines issue PING requests, two on fresh inbound streams (handler looked up at the host, as the multistream dispatcher does) and two on long-lived streams re-opened whenever they die; every completed request is answered with its own echo or fails with a stream reset; then, at rest (barrier event through the same subscription): handler registered <=> mode(last event), open streams still serve if server; finally a private event: no inbound stream is left open and every handler goroutine has returned; race-detector reports in /repo code are violations; non-trivial = both outcomes (answered, reset) observed and >= 20 mode switches; distinct by outcome counts",
 		Clauses: []string{"race-request-answered-or-reset", "race-final-mode-is-mode-of-last-event", "race-no-stream-left-open", "race-handlers-all-returned"}},
 		func(c *vh.Case) {
